@@ -448,6 +448,13 @@ func (g *GenSchema) addFuncTo(r *vh.Rng, o *schemabuilder.Object, owner, name st
 		form += "+expensive"
 	}
 	isBatch := hasSrc && r.Chance(35)
+	if isBatch && g.extra != nil && g.extra.Chance(22) {
+		// batch results of the non-pointer kinds whose nil has a non-null rendering elsewhere (bytes, lists) or none
+		// (plain scalars): a source left out of the result map must still match the advertised nullability
+		ret = []reflect.Type{reflect.TypeOf([]byte{}), reflect.TypeOf([]byte{}), reflect.TypeOf(""), reflect.TypeOf(int64(0)),
+			reflect.TypeOf(time.Time{}), reflect.TypeOf([]int64{}), reflect.TypeOf(Blob{}), reflect.TypeOf(MyStr(""))}[g.extra.Intn(8)]
+		out[0] = ret
+	}
 	if isBatch && ret.Kind() != reflect.Ptr && ret.Kind() != reflect.Slice && r.Chance(50) {
 		ret = reflect.PtrTo(ret) // batch results are mostly pointers in practice
 		out[0] = ret
@@ -515,6 +522,12 @@ func (g *GenSchema) addBatch(r *vh.Rng, o *schemabuilder.Object, owner, name str
 		return
 	}
 	bout := append([]reflect.Type{reflect.MapOf(batchIndexType, ret)}, out[1:]...)
+	// how often the resolver leaves a source out of its result map: rarely by default; often for some of the fields
+	// whose request survives it (not promised non-null, not an enum)
+	omitPct := 4
+	if g.extra != nil && !nonNullable && ret != reflect.TypeOf(Shade(0)) && ret != reflect.TypeOf(Tone("")) {
+		omitPct = []int{4, 30, 60}[g.extra.Intn(3)]
+	}
 	bfn := reflect.MakeFunc(reflect.FuncOf(bin, bout, false), func(args []reflect.Value) []reflect.Value {
 		rr := vh.NewRng(seed)
 		m := reflect.MakeMap(bout[0])
@@ -526,7 +539,7 @@ func (g *GenSchema) addBatch(r *vh.Rng, o *schemabuilder.Object, owner, name str
 			}
 		}
 		for _, k := range keys {
-			if rr.Chance(4) { // an entry left out
+			if rr.Chance(omitPct) { // an entry left out
 				if nonNullable {
 					atomic.StoreInt32(&g.NonNullNil, 1)
 				}
